@@ -2216,11 +2216,16 @@ class CxxParser:
             # recurses because array types are right to left
             dtype = self._parse_array_type(otok, dtype)
 
+        # the lexer fuses two closing brackets: in x[a[0]] the last token
+        # closes the subscript and the array, its first half is part of the size
+        fused = toks[-1].type == "DBL_RBRACKET"
         toks = toks[1:-1]
         size = None
 
         if toks:
             size = self._create_value(toks)
+            if fused:
+                size.tokens.append(Token("]", "]"))
 
         return Array(dtype, size)
 
